@@ -179,8 +179,25 @@ impl Recorded {
     }
 }
 
+thread_local! {
+    /// contract executions in the current transaction (a chain bounds the call depth; cw-multi-test does not, and a
+    /// contract that keeps dispatching calls to itself would overflow the harness's stack)
+    static EXECS: std::cell::Cell<u32> = std::cell::Cell::new(0);
+    /// anomalies noticed outside a subsystem's own bookkeeping; `Out::emit` adds them to the next event
+    pub static GLOBAL_ANOM: RefCell<Vec<String>> = RefCell::new(Vec::new());
+}
+const MAX_EXECS: u32 = 200;
+
 impl Contract<Empty> for Recorded {
     fn execute(&self, deps: DepsMut, env: Env, info: MessageInfo, msg: Vec<u8>) -> AnyResult<Response> {
+        // (counted only inside `call`, which knows where a transaction starts)
+        let k = if IN_CALL.with(|c| c.get()) { EXECS.with(|c| { c.set(c.get() + 1); c.get() }) } else { 0 };
+        if k > MAX_EXECS {
+            if k == MAX_EXECS + 1 {
+                GLOBAL_ANOM.with(|a| a.borrow_mut().push(format!("more than {MAX_EXECS} contract executions in one transaction (unbounded re-entrancy?)")));
+            }
+            anyhow::bail!("harness: call limit of one transaction exceeded");
+        }
         let r = self.inner.execute(deps, env, info, msg)?;
         Ok(self.post("execute", r))
     }
@@ -316,6 +333,7 @@ where
     F: FnOnce(&mut World) -> AnyResult<cw_multi_test::AppResponse>,
 {
     log_clear();
+    EXECS.with(|c| c.set(0));
     let r = guarded(|| f(w));
     let log = log_take();
     match r {
@@ -410,6 +428,14 @@ impl Scale {
     pub fn new(u: u128) -> Self {
         Scale { u, anomalies: RefCell::new(vec![]) }
     }
+    /// the scale a run's configuration asks for: 2^scale, or (2^128-1)/scaleDiv - with a divisor of 2^128-1 (255 =
+    /// 2^8-1) the largest model amount is exactly u128::MAX, so "the maximal value" is a reachable amount
+    pub fn of_cfg(cfg: &Value) -> Self {
+        match cfg.get("scaleDiv").and_then(|x| x.as_u64()) {
+            Some(d) if d > 0 => Scale::new(u128::MAX / d as u128),
+            _ => Scale::new(1u128 << cfg.get("scale").and_then(|x| x.as_u64()).unwrap_or(0)),
+        }
+    }
     pub fn up(&self, units: u64) -> u128 {
         (units as u128).checked_mul(self.u).unwrap_or_else(|| panic!("harness: {units} units do not fit u128 at scale {}", self.u))
     }
@@ -449,7 +475,17 @@ impl Out {
         let f = std::fs::File::create(path).unwrap_or_else(|e| panic!("cannot create {path}: {e}"));
         Out { w: std::io::BufWriter::with_capacity(1 << 20, f), events: 0, runs: 0, counts: BTreeMap::new(), last: None, in_run: false }
     }
-    pub fn emit(&mut self, ev: &Value) {
+    pub fn emit(&mut self, ev0: &Value) {
+        let extra: Vec<String> = GLOBAL_ANOM.with(|a| std::mem::take(&mut *a.borrow_mut()));
+        let merged;
+        let ev: &Value = if extra.is_empty() { ev0 } else {
+            let mut e = ev0.clone();
+            let mut l = e.get("anom").and_then(|x| x.as_array()).cloned().unwrap_or_default();
+            l.extend(extra.into_iter().map(Value::String));
+            e["anom"] = Value::Array(l);
+            merged = e;
+            &merged
+        };
         let act = ev.get("act").and_then(|a| a.as_str()).unwrap_or("?").to_string();
         let ok = ev.get("ok").and_then(|a| a.as_bool()).unwrap_or(true);
         let c = self.counts.entry(act.clone()).or_insert((0, 0));
